@@ -1295,6 +1295,12 @@ export class TupleRuntype extends BaseRuntype {
           popPath(ctx);
         }
       }
+    } else {
+      for (let i = idx; i < input.length; i++) {
+        pushPath(ctx, `[${i}]`);
+        acc.push(...buildError(ctx, "unexpected extra tuple item", input[i]));
+        popPath(ctx);
+      }
     }
 
     return acc;
